@@ -62,7 +62,7 @@ def make_cap_session(record_selector=False):
 
         def wait_readable(self, timeout=0.0):
             r = super(RecSel, self).wait_readable(timeout)
-            self.waits.append((bool(r), time.time()))
+            self.waits.append((bool(r), time.monotonic()))
             return r
 
         def close(self):
@@ -78,7 +78,7 @@ def make_cap_session(record_selector=False):
 def iterate(gen, deadline_s, on_event=None):
     """collect events with a generous wall-clock watchdog (firing = inconclusive)"""
     out = []
-    t0 = time.time()
+    t0 = time.monotonic()
     exc = None
     try:
         for ev in gen:
@@ -86,7 +86,7 @@ def iterate(gen, deadline_s, on_event=None):
             if on_event is not None:
                 if on_event(ev, out) == 'stop':
                     break
-            if time.time() - t0 > deadline_s:
+            if time.monotonic() - t0 > deadline_s:
                 raise Watchdog()
     except Watchdog:
         return out, 'watchdog'
